@@ -1326,8 +1326,12 @@ func exchangeOnce(rt *client.Runtime, api *API, cur *exchange, op *Op, concurren
 	}
 	cop := &runtime.ClientOperation{ID: op.ID, Method: op.Method, PathPattern: op.path() + staticQuery(st.PatStatic), ProducesMediaTypes: op.Produces,
 		ConsumesMediaTypes: []string{st.Media}, Params: writer, Reader: reader}
+	// every call has 10 s (a call that cannot complete - a request body nobody ever closes - must not stall the run)
+	ctx, cancel := context.WithTimeout(context.Background(), 10*time.Second)
+	defer cancel()
+	cop.Context = ctx
 	if concurrent {
-		cop.Context = context.WithValue(context.Background(), callKey{}, cur.idx)
+		cop.Context = context.WithValue(ctx, callKey{}, cur.idx)
 	}
 	keyIn, keyName := api.key()
 	switch st.Auth {
